@@ -206,7 +206,9 @@ class Report:
         with open(os.path.join(EVID, "%s.json" % self.pid), "w") as fh:
             json.dump(ev, fh, indent=1, sort_keys=True, default=str)
         if vpaths:
-            print("RESULT %s: VIOLATED (%d) in %.1fs" % (self.pid, len(vpaths), wall))
+            for w in self.inconclusive[:10]:
+                print("INCONCLUSIVE %s: %s" % (self.pid, str(w)[:600]))
+            print("RESULT %s: VIOLATED (%d)%s in %.1fs" % (self.pid, len(vpaths), (" + %d inconclusive" % len(self.inconclusive)) if self.inconclusive else "", wall))
             return 1
         if self.inconclusive:
             for w in self.inconclusive[:10]:
